@@ -133,7 +133,9 @@ Finish ==
   /\ LET tr == Traces[tid]
          unex == Len(tr.events) + 1 - l
          ms_claims_left == mst.phase # "proof" \/ mst.claims # <<>>
-         c2 == IF ~tr.final.module THEN ""
+         \* the toolkit refused this module at run time: not a generated proof - unless the SAME module ran to the end under
+         \* the other optimise setting (final.peer = "ok"): then one of the two interpreter stacks is wrong
+         c2 == IF ~tr.final.module THEN (IF "peer" \in DOMAIN tr.final /\ tr.final.peer = "ok" THEN "optimise-disagree" ELSE "")
                ELSE IF dead \/ ~mok \/ ms_claims_left THEN "not-accepted"
                ELSE IF tr.final.rust # "ok" THEN "not-accepted"
                ELSE ""
